@@ -12,6 +12,7 @@ import z3
 
 from .engine import Engine, REPO
 from .state import Obligation, Unsupported, SpecError
+from .values import MergeError
 from .solve import discharge
 
 ROOT = os.path.dirname(os.path.dirname(os.path.abspath(__file__)))
@@ -59,6 +60,14 @@ def run_contracts(res, contracts, all_contracts=None):
             ob = Obligation(f"{name}:supported", "vc", [], z3.BoolVal(False), c["target"],
                             f"function left the verified subset / contract unresolvable: {ex}", func=name)
             ob.verdict, ob.backend, ob.detail = "undecided", "engine", f"{type(ex).__name__}: {ex}"
+            eng.obligations.append(ob)
+        except (MergeError, KeyError, AttributeError, TypeError, IndexError, z3.Z3Exception) as ex:
+            import traceback as _tb
+            del eng.obligations[n0:]
+            ob = Obligation(f"{name}:supported", "vc", [], z3.BoolVal(False), c["target"],
+                            f"engine could not process the function: {type(ex).__name__}: {ex}", func=name)
+            ob.verdict, ob.backend = "undecided", "engine"
+            ob.detail = f"{type(ex).__name__}: {ex} @ " + " < ".join(f"{f.name}:{f.lineno}" for f in _tb.extract_tb(ex.__traceback__)[-4:])
             eng.obligations.append(ob)
         except RecursionError as ex:
             del eng.obligations[n0:]
